@@ -11,13 +11,13 @@ use crate::kit::{log_sink, sink_rows, Layout, ScriptSource};
 use crate::props::common::ORDERS3;
 use crate::rt::{EnvParams, Ev, Kind, Status};
 
-fn interval_case(l: Vec<i64>, r: Vec<i64>, lower: i64, upper: i64, bound: usize) -> Scenario {
+fn interval_case(l: Vec<i64>, r: Vec<i64>, lower: i64, upper: i64, bound: usize, keyed: bool) -> Scenario {
     // left/right: timestamps (ids = index), single key; contract: sources emit in timestamp order
     // with a watermark after every element
     let mut exp: Vec<Vec<i64>> = vec![];
     for (i, a) in l.iter().enumerate() {
         for (j, b) in r.iter().enumerate() {
-            if a - lower <= *b && *b <= a + upper {
+            if a - lower <= *b && *b <= a + upper && (!keyed || i % 2 == j % 2) {
                 exp.push(vec![i as i64, 100 + j as i64]);
             }
         }
@@ -36,11 +36,15 @@ fn interval_case(l: Vec<i64>, r: Vec<i64>, lower: i64, upper: i64, bound: usize)
         };
         let a = env.stream(mk(&l2, 0)).batch_mode(BatchMode::fixed(1));
         let b = env.stream(mk(&r2, 100)).batch_mode(BatchMode::fixed(1));
-        let out = a.interval_join(b, lower, upper).collect_vec();
+        let out = if keyed {
+            a.key_by(|x: &i64| x % 2).interval_join(b.key_by(|x: &i64| x % 2), lower, upper).drop_key().collect_vec()
+        } else {
+            a.interval_join(b, lower, upper).collect_vec()
+        };
         env.execute_blocking();
         log_sink("sink0", 0, out.get());
     });
-    let descr = format!("interval join lower={lower} upper={upper} left timestamps {:?} right timestamps {:?}", l, r);
+    let descr = format!("interval join (keyed by id % 2: {keyed}) lower={lower} upper={upper} left timestamps {:?} right timestamps {:?}", l, r);
     let d2 = descr.clone();
     let check: Check = Arc::new(move |r| {
         match &r.status {
@@ -61,7 +65,7 @@ fn interval_case(l: Vec<i64>, r: Vec<i64>, lower: i64, upper: i64, bound: usize)
         Ok(hash_of(&r.log.iter().filter(|e| matches!(e, Ev::Note(..))).collect::<Vec<_>>()))
     });
     Scenario {
-        name: format!("C08/interval/lo{lower}-up{upper}/L{:?}/R{:?}", l, r).replace(' ', ""),
+        name: format!("C08/interval{}/lo{lower}-up{upper}/L{:?}/R{:?}", if keyed { "-keyed" } else { "" }, l, r).replace(' ', ""),
         descr,
         params: EnvParams { free_kinds: vec![Kind::Driver, Kind::Select], ..Default::default() },
         body,
@@ -92,7 +96,10 @@ pub fn scenarios(tier: Tier) -> Vec<Scenario> {
     for (lo, up) in bounds {
         for l in &lists {
             for r in &lists {
-                out.push(interval_case(l.clone(), r.clone(), lo, up, if tier == Tier::Quick { 0 } else { 1 }));
+                out.push(interval_case(l.clone(), r.clone(), lo, up, if tier == Tier::Quick { 0 } else { 1 }, false));
+                if l.len() == maxlen && r.len() == maxlen {
+                    out.push(interval_case(l.clone(), r.clone(), lo, up, if tier == Tier::Quick { 0 } else { 1 }, true));
+                }
             }
         }
     }
